@@ -12,6 +12,10 @@ use std::time::{Duration, Instant};
 fn arg(args: &[String], name: &str) -> Option<String> {
     args.iter().position(|a| a == name).and_then(|i| args.get(i + 1).cloned())
 }
+/// Where replay files go: /verif unless a trial run redirects its output (VERIF_OUT_DIR).
+pub fn out_dir() -> PathBuf {
+    std::env::var_os("VERIF_OUT_DIR").filter(|v| !v.is_empty()).map(PathBuf::from).unwrap_or_else(verif_dir)
+}
 pub fn verif_dir() -> PathBuf {
     std::env::var_os("VERIF_DIR").map(PathBuf::from).unwrap_or_else(|| PathBuf::from("/verif"))
 }
@@ -232,7 +236,7 @@ pub fn worker_main(args: &[String]) -> i32 {
                 let (mc, mo) = minimise(p, &case, f, o.tape.clone(), &mut budget);
                 rep.minimise_runs += 400 - budget;
                 let mf = mo.fail.clone().unwrap_or_else(|| f.clone());
-                let dir = verif_dir().join("replays");
+                let dir = out_dir().join("replays");
                 let _ = std::fs::create_dir_all(&dir);
                 let path = dir.join(format!("{}-{}-{}-{}.json", p.id(), flavour(), vseed, i));
                 let rf = ReplayFile { case: mc.clone(), expect: mf.clone(), digest: format!("{:016x}", mo.digest), steps: mo.steps, note: format!("minimised from run index {i} of VERIF_SEED {vseed} ({} re-executions); original workload size {} -> {}", 400 - budget, case.work.to_string().len(), mc.work.to_string().len()) };
@@ -423,7 +427,8 @@ pub fn run_main(args: &[String]) -> i32 {
                     if ch.last_change.elapsed() > Duration::from_secs(300) {
                         // keep a picture of the stuck process for diagnosis (best effort)
                         if let Ok(o) = Command::new("gdb").args(["-p", &ch.proc.id().to_string(), "-batch", "-ex", "thread apply all bt 12"]).output() {
-                            let _ = std::fs::write(verif_dir().join("sim").join("target").join(format!("hang-{}-{}.txt", pid, ch.proc.id())), o.stdout);
+                            let _ = std::fs::create_dir_all(out_dir().join("replays"));
+                            let _ = std::fs::write(out_dir().join("replays").join(format!("hang-{}-{}.txt", pid, ch.proc.id())), o.stdout);
                         }
                         let _ = ch.proc.kill();
                         let _ = ch.proc.wait();
@@ -486,7 +491,7 @@ pub fn run_main(args: &[String]) -> i32 {
                     }
                     break;
                 }
-                let dir = verif_dir().join("replays");
+                let dir = out_dir().join("replays");
                 let _ = std::fs::create_dir_all(&dir);
                 let path = dir.join(format!("{}-{}-{}-{}-crash.json", pid, flavour(), vseed, ix));
                 let rf = ReplayFile { case: best.clone(), expect: Fail { rule: "crash".into(), msg: format!("{what} ({kind})"), sig: sig.clone() }, digest: String::new(), steps: 0, note: format!("the worker process died while executing run index {ix}; confirmed and minimised by re-executing in fresh processes ({} executions); workload {} -> {} bytes", 150 - budget, case.work.to_string().len(), best.work.to_string().len()) };
